@@ -3,6 +3,7 @@
 package main
 
 import (
+	"encoding/binary"
 	"context"
 	"fmt"
 	"os"
@@ -212,12 +213,29 @@ type c06Case struct {
 	Data    string `json:"data"`    // kept | deleted | shortened | lastchunk
 	DmgOff  int    `json:"dmg_off"` // byte within the last complete chunk
 	Hold    bool   `json:"hold"`    // hold the sender's verification until the rest was sent (repair race)
+	// Marks: shape of the recorded set of a "partial" first run: "" = prefix
+	// (+ maybe one scattered later chunk) | "nozero" = chunk 0 missing, a run of
+	// later chunks recorded | "scattered" = random subset
+	Marks string `json:"marks,omitempty"`
 	Streams int    `json:"streams"`
 	CS      uint32 `json:"cs"`
 	TSeed   uint64 `json:"tseed"`
 }
 
 func c06Key(c c06Case, o c06Out) string {
+	if c.Data == "lastchunk" && !o.resent {
+		// the sender never put the damaged chunk on the wire: the damage was
+		// not detected at all (the recorded findings are about a repair that
+		// was sent and then lost)
+		st := "partial"
+		if o.allMarked {
+			st = "all-chunks-marked"
+		}
+		if c.Marks != "" {
+			st += ":" + c.Marks
+		}
+		return "lastchunk-damage-not-detected:" + st
+	}
 	if c.Data == "lastchunk" {
 		// the class is decided by the state the resumed run started from
 		switch {
@@ -278,6 +296,16 @@ func runC06(e *Env) {
 			for k := 0; k < e.Pick(6, 24); k++ {
 				add(c06Case{First: first, Sidecar: "kept", Data: "lastchunk", DmgOff: r.Intn(1000)})
 			}
+			if first == "partial" {
+				// recorded sets that are not a prefix
+				for _, mk := range []string{"nozero", "scattered"} {
+					for k := 0; k < e.Pick(4, 16); k++ {
+						add(c06Case{First: first, Sidecar: "kept", Data: "lastchunk", DmgOff: r.Intn(1000), Marks: mk})
+					}
+					add(c06Case{First: first, Sidecar: "kept", Data: "kept", Marks: mk})
+					add(c06Case{First: first, Sidecar: "foreign-samecount", Data: "kept", Marks: mk})
+				}
+			}
 		}
 	}
 	var held []c06Case
@@ -298,7 +326,7 @@ func runC06(e *Env) {
 			e.R.Count("tamper_not_applicable")
 			return
 		}
-		e.R.Distinct(fmt.Sprintf("%s/%s/%s/off%d/hold%v/cs%d/s%d", c.First, c.Sidecar, c.Data, c.DmgOff%int(c.CS), c.Hold, c.CS, c.Streams))
+		e.R.Distinct(fmt.Sprintf("%s%s/%s/%s/off%d/hold%v/cs%d/s%d", c.First, c.Marks, c.Sidecar, c.Data, c.DmgOff%int(c.CS), c.Hold, c.CS, c.Streams))
 		res := o.res
 		mu.Lock()
 		switch {
@@ -347,6 +375,10 @@ func runC06(e *Env) {
 			e.R.Sample(map[string]any{"case": c, "result": o.res.Summary(), "diff": o.diff, "tamper": o.note})
 		}
 	}
+	for v := 0; v < e.Pick(2, 6); v++ {
+		c06BigFile(e, lp, v)
+	}
+	e.R.Require(e.R.Counter("bigfile_double_success")+e.R.Counter("bigfile_loud_failure") >= 1, "no resumed transfer of a file over 4 GiB reached a verdict")
 	e.R.SetExtra("e2e_outcomes", outcomes)
 	e.R.SetExtra("hook_hits", verifhook.AllHits())
 	e.R.Require(e.R.DistinctCount() >= e.Pick(300, 3000), fmt.Sprintf("only %d distinct cases", e.R.DistinctCount()))
@@ -359,6 +391,9 @@ type c06Out struct {
 	setup    string
 	note     string
 	allMarked bool
+	// lastchunk cases: the sender put a frame of the damaged chunk on the wire
+	// during the resumed run (it detected the damage and tried to repair it)
+	resent bool
 }
 
 func runC06Case(e *Env, lp *vk.ListenerPool, c c06Case) c06Out {
@@ -415,12 +450,34 @@ func runC06Case(e *Env, lp *vk.ListenerPool, c c06Case) c06Out {
 		}
 		rr := vk.NewRng(c.TSeed ^ 0x77)
 		keep := map[uint32]bool{}
-		prefix := uint32(1 + rr.Intn(int(full.TotalChunks)-1))
-		for i := uint32(0); i < prefix; i++ {
-			keep[i] = true
-		}
-		if rr.Bool() && prefix+2 < full.TotalChunks {
-			keep[prefix+1+uint32(rr.Intn(int(full.TotalChunks-prefix-1)))] = true // a scattered later chunk
+		switch c.Marks {
+		case "nozero":
+			// what several streams completing out of order leave: the first
+			// chunk still missing, a run of later chunks recorded
+			a := 1 + uint32(rr.Intn(int(full.TotalChunks)-2))
+			b := a + uint32(rr.Intn(int(full.TotalChunks-a)))
+			for i := a; i <= b && i < full.TotalChunks; i++ {
+				keep[i] = true
+			}
+		case "scattered":
+			for i := uint32(0); i < full.TotalChunks; i++ {
+				if rr.Intn(2) == 0 {
+					keep[i] = true
+				}
+			}
+			keep[uint32(rr.Intn(int(full.TotalChunks)))] = true
+			delete(keep, uint32(rr.Intn(int(full.TotalChunks))))
+			if len(keep) == 0 {
+				keep[full.TotalChunks-1] = true
+			}
+		default:
+			prefix := uint32(1 + rr.Intn(int(full.TotalChunks)-1))
+			for i := uint32(0); i < prefix; i++ {
+				keep[i] = true
+			}
+			if rr.Bool() && prefix+2 < full.TotalChunks {
+				keep[prefix+1+uint32(rr.Intn(int(full.TotalChunks-prefix-1)))] = true // a scattered later chunk
+			}
 		}
 		_ = os.Remove(scPath)
 		nsc, err := transfer.CreateSidecar(scPath, full.FileID, full.FileSize, full.ChunkSize)
@@ -536,7 +593,7 @@ func runC06Case(e *Env, lp *vk.ListenerPool, c c06Case) c06Out {
 
 	// ---- resumed transfer
 	cfg2 := cfg
-	cfg2.SendDeco = &vk.Deco{}
+	cfg2.SendDeco = &vk.Deco{RecordAll: c.Data == "lastchunk"}
 	if c.Hold {
 		// hold the sender's verification until every other chunk frame of the file has gone out
 		var sent atomic.Int64
@@ -571,6 +628,9 @@ func runC06Case(e *Env, lp *vk.ListenerPool, c c06Case) c06Out {
 	}
 	res := vk.RunTransfer(context.Background(), cfg2, lp, src, outDir)
 	out.res = res
+	if c.Data == "lastchunk" && highest >= 0 {
+		out.resent = sentFrames(cfg2.SendDeco)[[2]uint64{bigKey, uint64(highest)}] > 0
+	}
 	if res.BothOK() {
 		got, err := vk.Digest(outDir)
 		if err != nil {
@@ -578,6 +638,29 @@ func runC06Case(e *Env, lp *vk.ListenerPool, c c06Case) c06Out {
 			return out
 		}
 		out.diff = vk.DiffDigest(vk.ExpectedDigest(tree, res.Prefix), got)
+	}
+	return out
+}
+
+// sentFrames parses the data-stream bytes a recording decorator saw the sender
+// write and counts the frames per (file key, chunk index).
+func sentFrames(d *vk.Deco) map[[2]uint64]int {
+	out := map[[2]uint64]int{}
+	for _, st := range d.Stats() {
+		if st.Ordinal == 0 {
+			continue
+		}
+		b := d.Recorded(st.Ordinal, "w")
+		for len(b) >= 20 {
+			key := binary.BigEndian.Uint64(b[0:8])
+			idx := binary.BigEndian.Uint32(b[8:12])
+			n := int(binary.BigEndian.Uint32(b[12:16]))
+			out[[2]uint64{key, uint64(idx)}]++
+			if 20+n > len(b) {
+				break
+			}
+			b = b[20+n:]
+		}
 	}
 	return out
 }
